@@ -98,6 +98,8 @@ def load_calibrator_state(checkpoint_path: PathLike, _code_state_version: int) -
         series_samp,
         cr["batch_num_samp"].to_numpy(dtype=np.int64),
         cr["method_samp"].to_numpy(dtype=np.int64),
+        # the table from sampler names to ids (None for checkpoints that do not have it)
+        cp.get("samplers_id_table"),
     )
 
 
@@ -125,6 +127,7 @@ def save_calibrator_state(  # noqa: PLR0913
     series_samp: NDArray[np.float64],
     batch_num_samp: NDArray[np.int64],
     method_samp: NDArray[np.int64],
+    samplers_id_table: Mapping[str, int] | None = None,
 ) -> None:
     """Store the state of the calibrator in a given folder.
 
@@ -152,6 +155,7 @@ def save_calibrator_state(  # noqa: PLR0913
         series_samp: the sampled series
         batch_num_samp: the sampling batch number
         method_samp: the sampling method
+        samplers_id_table: the table from sampler names to the ids used in method_samp
     """
     checkpoint_path = Path(checkpoint_path)
     # create directory if needed
@@ -174,6 +178,7 @@ def save_calibrator_state(  # noqa: PLR0913
         "current_batch_index": current_batch_index,
         "n_sampled_params": n_sampled_params,
         "n_jobs": n_jobs,
+        "samplers_id_table": samplers_id_table,
     }
     # save calibration parameters in a json dictionary
     with (checkpoint_path / "calibration_params.json").open("w") as f:
